@@ -244,3 +244,96 @@ pub fn c16_clone_information_request() {
     cover!(n == 1, "one request (padded)");
     vassert!(same, "same requests");
 }
+
+// ---------------------------------------------------------------------------
+// allocation layout observed through a stub of the global allocator's entry point,
+// compared with the layout Box's drop glue frees with (Layout::for_value of the pointee)
+// ---------------------------------------------------------------------------
+#[cfg(kani)]
+mod alloc_spy {
+    use core::alloc::Layout;
+    pub static mut ALLOCS: usize = 0;
+    pub static mut A_SIZE: usize = 0;
+    pub static mut A_ALIGN: usize = 0;
+    pub static mut A_PTR: usize = 0;
+    pub unsafe fn spy_alloc(layout: Layout) -> *mut u8 {
+        ALLOCS += 1;
+        A_SIZE = layout.size();
+        A_ALIGN = layout.align();
+        let p = std::alloc::alloc_zeroed(layout);
+        A_PTR = p as usize;
+        p
+    }
+}
+
+#[cfg(kani)]
+fn spy_check<T: ?Sized>(bx: &Box<T>, total: usize) {
+    use alloc_spy::*;
+    let l = Layout::for_value(&**bx);
+    unsafe {
+        vassert!(ALLOCS == 1, "allocated once");
+        vassert!(A_SIZE == round8(total) && A_ALIGN == 8, "allocation is the total rounded up to 8, 8-aligned");
+        vassert!(l.size() == A_SIZE && l.align() == A_ALIGN, "the layout Box frees with is the layout that was allocated");
+        vassert!(&**bx as *const T as *const u8 as usize == A_PTR, "the box owns the allocated block");
+    }
+}
+
+// @harness props=C16 tier=quick panic=forbid builder=yes kflags=-Z~stubbing
+// @encodes new_boxed::<DynSizedStructure<HeaderTagHeader>> / new_boxed::<InformationRequestHeaderTag>: Layout passed to alloc::alloc::alloc (observed through a stub) vs. Layout::for_value of the box (what drop frees with); drop under CBMC's free checks
+// @bound content 0..=5 bytes / 0..=2 requests; header kind with alignment 4 (HeaderTagHeader)
+// @assume stub: std::alloc::alloc replaced by a recording wrapper around alloc_zeroed
+#[cfg_attr(kani, kani::proof)]
+#[cfg_attr(kani, kani::unwind(8))]
+#[cfg_attr(kani, kani::stub(std::alloc::alloc, alloc_spy::spy_alloc))]
+pub fn c16_layout_header_tag() {
+    use multiboot2_header::{HeaderTagFlag, HeaderTagHeader, HeaderTagType, InformationRequestHeaderTag, MbiTagTypeId};
+    if nd::any_bool() {
+        let data: [u8; 5] = nd::any();
+        let n: usize = nd::any();
+        nd::assume(n <= 5);
+        let hdr = HeaderTagHeader::new(HeaderTagType::ModuleAlign, HeaderTagFlag::Required, 0);
+        let bx: Box<DynSizedStructure<HeaderTagHeader>> = new_boxed(hdr, &[&data[..n]]);
+        vassert!(bx.header().size() as usize == 8 + n, "size field");
+        #[cfg(kani)]
+        spy_check(&bx, 8 + n);
+        cover!(n == 3, "padded");
+        drop(bx);
+    } else {
+        let reqs = [MbiTagTypeId::new(nd::any()), MbiTagTypeId::new(nd::any())];
+        let n: usize = nd::any();
+        nd::assume(n <= 2);
+        let bx = InformationRequestHeaderTag::new(HeaderTagFlag::Optional, &reqs[..n]);
+        #[cfg(kani)]
+        spy_check(&bx, 8 + 4 * n);
+        drop(bx);
+    }
+}
+
+// @harness props=C16 tier=quick panic=forbid builder=yes kflags=-Z~stubbing
+// @encodes new_boxed::<DynSizedStructure<TagHeader>> / new_boxed::<DynSizedStructure<Multiboot2BasicHeader>>: allocation layout vs. Box's free layout
+// @bound content 0..=5 bytes in two slices
+// @assume stub: std::alloc::alloc replaced by a recording wrapper around alloc_zeroed
+#[cfg_attr(kani, kani::proof)]
+#[cfg_attr(kani, kani::unwind(8))]
+#[cfg_attr(kani, kani::stub(std::alloc::alloc, alloc_spy::spy_alloc))]
+pub fn c16_layout_tag_and_header() {
+    let data: [u8; 5] = nd::any();
+    let n: usize = nd::any();
+    let c: usize = nd::any();
+    nd::assume(c <= n && n <= 5);
+    if nd::any_bool() {
+        let bx: Box<DynSizedStructure<TagHeader>> = new_boxed(TagHeader::new(TagTypeId::new(9), 0), &[&data[..c], &data[c..n]]);
+        #[cfg(kani)]
+        spy_check(&bx, 8 + n);
+        drop(bx);
+    } else {
+        use multiboot2_header::Multiboot2BasicHeader;
+        let mut proto = Aligned::<16>([0; 16]);
+        put32(&mut proto.0, 0, 0xE852_50D6);
+        let hdr: Multiboot2BasicHeader = unsafe { core::ptr::read(proto.0.as_ptr().cast()) };
+        let bx: Box<DynSizedStructure<Multiboot2BasicHeader>> = new_boxed(hdr, &[&data[..c], &data[c..n]]);
+        #[cfg(kani)]
+        spy_check(&bx, 16 + n);
+        drop(bx);
+    }
+}
